@@ -175,7 +175,9 @@ func judge(res *Result) *judged {
 			continue
 		}
 		for i, e := range res.Events {
-			if !consumed[i] && e.Step == k && e.Sync {
+			// (a notification of a running subscription can arrive while Handle executes: only replies
+			// under the message's own or the empty operation ID are the malformed message's)
+			if !consumed[i] && e.Step == k && e.Sync && (replies[i].OpID == "" || (reqs[k].HasOpID && replies[i].OpID == reqs[k].OpID)) {
 				consumed[i] = true
 				malformedReplies[k] = append(malformedReplies[k], replies[i])
 			}
